@@ -72,11 +72,16 @@ def lemmas():
     # postconditions of expand_macro / begin_environment
     covered = set(FUNCS) | set(globals().get('RUN_INFO', {}).get(
         'inlined', ()))
+    ran = bool(globals().get('RUN_INFO', {}).get('verified'))
     for q, kind, ok in sites:
         if kind == 'append' and q in covered:
             allowed.add((q, kind))
-        yield ('frame:unknowns-store:%s:%s' % (q, kind),
-               (q, kind) in allowed and ok,
+        good = (q, kind) in allowed and ok
+        if not good and kind == 'append' and not ran:
+            # no function was verified in this run (triage mode): whether
+            # the helper is covered by inlining is not known
+            good = None
+        yield ('frame:unknowns-store:%s:%s' % (q, kind), good,
                'store to .unknowns in %s (%s)' % (q, kind), False)
     yield ('frame:unknowns-store-sites-found',
            True if len(sites) >= 3 else None,
